@@ -27,6 +27,9 @@ def judge(p):
     fn, m0, m1, t0, t1, exp = p
     f = pms.adsb.position if fn == "position" else pms.adsb.airborne_position
     r = call(f, m0, m1, t0, t1)
+    if exp == "no_exception":
+        ok = r[0] == "ok" and (r[1] is None or (isinstance(r[1], tuple) and len(r[1]) == 2 and all(x == x for x in r[1])))
+        return None if ok else "airborne:raises_or_malformed_at_a_transition_latitude:%s" % (r[1] if r[0] != "ok" else "shape")
     if exp == "RuntimeError":
         return None if r == ("exc", "RuntimeError") else "airborne:same_parity_not_rejected"
     rlat, rlon, tlat, tlon, none_ok, band = exp
@@ -58,6 +61,12 @@ def band_of(lat):
     return "mid" if a < 80 else "high"
 
 
+def partner_tc(tc, k):
+    """another type code of the same group (the type code carries the accuracy category and may differ between the frames)."""
+    grp = list(range(9, 19)) if tc <= 18 else [20, 21, 22]
+    return grp[(grp.index(tc) + k) % len(grp)]
+
+
 def make(latA, lonA, disp, tc, first_newer, alt12=0x5A3, hdr=0):
     """even frame at A, odd frame at B = A + disp. Returns (m_even, m_odd, enc_even, enc_odd) or None."""
     latB, lonB = C.offset_nm(latA, lonA, disp[0], disp[1])
@@ -67,7 +76,7 @@ def make(latA, lonA, disp, tc, first_newer, alt12=0x5A3, hdr=0):
     e1 = C.encode(latB, lonB, 1)
     aa = [0x406B90, 0xABCDEF, 0x000001][hdr % 3]
     m0 = F.es(C.me_airborne(tc, alt12, 0, e0["yz"], e0["xz"], ss=hdr % 4, saf=hdr % 2, t=(hdr // 2) % 2), aa, 5, 17 + hdr % 2)
-    m1 = F.es(C.me_airborne(tc, alt12, 1, e1["yz"], e1["xz"], ss=(hdr + 1) % 4, saf=0, t=hdr % 2), aa, 5, 17 + hdr % 2)
+    m1 = F.es(C.me_airborne(partner_tc(tc, hdr % 4), alt12, 1, e1["yz"], e1["xz"], ss=(hdr + 1) % 4, saf=0, t=hdr % 2), aa, 5, 17 + hdr % 2)
     return m0, m1, e0, e1
 
 
@@ -77,10 +86,10 @@ def expected(e0, e1, newer_is_even):
     near = C.near_transition(e0["rlat"], C.EPS) or C.near_transition(e1["rlat"], C.EPS)
     none_ok = (not same_band) or near
     if near:
-        return None  # either NL admissible: not judged (counted as skipped)
+        return "no_exception"   # either NL admissible: only 'no exception, well-formed result' is required
     if not same_band:
-        # decoder may return None; a non-None answer is not judged either (zones inconsistent by construction)
-        return "skip_or_none"
+        # the decoder may return None; if it does return a position it must still be the newer frame's position
+        return [float(e["rlat"]), float(e["rlon"]), float(e["dlat"]) / 131072, float(e["dlon"]) / 131072, True, "cross-band"]
     return [float(e["rlat"]), float(e["rlon"]), float(e["dlat"]) / 131072, float(e["dlon"]) / 131072, none_ok, band_of(e["rlat"])]
 
 
@@ -100,20 +109,20 @@ def w_lats(arg):
                 acc.out.add((e0["yz"], e0["xz"], e1["yz"], e1["xz"]))
                 for newer_even in (True, False):
                     exp = expected(e0, e1, newer_even)
-                    if exp is None:
-                        acc.c["skipped_within_1e-9_of_transition"] += 1
-                        continue
                     t0, t1 = (10, 9) if newer_even else (9, 10)
                     for order in (0, 1):
                         args = (m0, m1, t0, t1) if order == 0 else (m1, m0, t1, t0)
                         fn = "position" if (k + order) % 3 else "airborne_position"
                         acc.n += 1
-                        if exp == "skip_or_none":
-                            r = call(pms.adsb.position, *args)
-                            acc.c["different_NL_bands"] += 1
-                            if r[0] != "ok":
-                                acc.bad("airborne:raises:%s:cross-band" % r[1], {"p": [fn, args[0], args[1], args[2], args[3], [0, 0, 400, 400, True, "cross-band"]]})
+                        if exp == "no_exception":
+                            acc.c["within_1e-9_of_transition_only_totality_judged"] += 1
+                            r = call(getattr(pms.adsb, fn), *args)
+                            if r[0] != "ok" or not (r[1] is None or (isinstance(r[1], tuple) and len(r[1]) == 2 and all(x == x for x in r[1]))):
+                                acc.bad("airborne:raises_or_malformed_at_a_transition_latitude:%s" % (r[1] if r[0] != "ok" else "shape"),
+                                        {"p": [fn] + list(args) + ["no_exception"]})
                             continue
+                        if exp[5] == "cross-band":
+                            acc.c["different_NL_bands"] += 1
                         s = judge((fn,) + args + (exp,))
                         if s:
                             acc.bad(s, {"p": [fn] + list(args) + [exp], "true": [float(lat), float(lon)], "disp_nm": [float(disp[0]), float(disp[1])]})
@@ -140,7 +149,7 @@ def w_sweep(arg):
         m0, m1, e0, e1 = mk
         for newer_even in (True, False):
             exp = expected(e0, e1, newer_even)
-            if exp is None or exp == "skip_or_none":
+            if exp == "no_exception":
                 acc.c["sweep_skipped"] += 1
                 continue
             t0, t1 = (2, 1) if newer_even else (1, 2)
